@@ -16,19 +16,35 @@ import (
 // reached (they return at once without being registered) and with callers that give up; the early
 // waiters must still be woken by the head they wait for. Small and deterministic in shape; the
 // interleaving is drawn.
-var earlyWaiters = &core.Check{Name: "c13/early-waiters", Quick: 60, Thorough: 6000, Fn: func(c *core.Ctx) error {
+var earlyWaiters = &core.Check{Name: "c13/early-waiters", Quick: 60, Thorough: 6000, Hang: caseHang, Fn: func(c *core.Ctx) error {
+	caseStart()
 	p := pool.VerifNewPool(pool.FirstWorkingConnection, nil, nil)
 	p.VerifSetUpdateInterval(time.Hour)
 	best := p.VerifNewConnection(0)
-	p.VerifSetBest(best)
+	if err := setBest(p, best, "conn0 (fresh pool)"); err != nil {
+		return err
+	}
 	other := p.VerifNewConnection(1) // a second, non-best connection that reports the same heads
 	withOther := c.Bool("other")
 	ctx, cancel := context.WithCancel(context.Background())
 	defer cancel()
 	// Run may start only after head updates have queued up (it then finds several at once)
 	runLate := c.Intn("runLate", 3) == 0
+	var runOnce sync.Once
+	startRun := func() { runOnce.Do(func() { go p.Run(ctx) }) }
 	if !runLate {
-		go p.Run(ctx)
+		startRun()
+	}
+	// every call into the pool is bounded (bounded_test.go). Before a late Run the heads fit into the head
+	// channel; should one not be taken, Run is started at once and the case is over (no verdict).
+	rescued := false
+	publish := func(cn pool.VerifConn, name string, seq uint32) error {
+		r, err := poolCallRescue(fmt.Sprintf("SetMasterHead(%d) on %s", seq, name), func() { cn.SetMasterHead(pool.VerifHead(seq)) }, map[bool]func(){true: startRun, false: nil}[runLate])
+		rescued = rescued || r
+		if err != nil {
+			c.Class("pool blocked")
+		}
+		return err
 	}
 	usedBefore := c.Intn("usedBefore", 3) // 0 = the pool never had a registered waiter before
 	if runLate {
@@ -36,13 +52,22 @@ var earlyWaiters = &core.Check{Name: "c13/early-waiters", Quick: 60, Thorough: 6
 		c.Class("Run started after updates queued")
 	}
 	base := uint32(5)
-	best.SetMasterHead(pool.VerifHead(base))
+	if err := publish(best, "the best connection conn0", base); err != nil {
+		return err
+	}
 	if withOther {
-		other.SetMasterHead(pool.VerifHead(base))
+		if err := publish(other, "conn1", base); err != nil {
+			return err
+		}
 	}
 	time.Sleep(5 * time.Millisecond)
 	for i := 0; i < usedBefore; i++ { // earlier registered waiters that came and went
-		p.WaitMasterchainSeqno(context.Background(), base+1000, time.Millisecond)
+		if err := poolCall(fmt.Sprintf("WaitMasterchainSeqno(%d, 1ms) on a pool whose best connection is at %d", base+1000, base), func() {
+			p.WaitMasterchainSeqno(context.Background(), base+1000, time.Millisecond)
+		}); err != nil {
+			c.Class("pool blocked")
+			return err
+		}
 	}
 	nWaiters := 1 + c.Intn("waiters", 4)
 	nFast := 1 + c.Intn("fast", 6)
@@ -113,26 +138,31 @@ var earlyWaiters = &core.Check{Name: "c13/early-waiters", Quick: 60, Thorough: 6
 	time.Sleep(time.Duration(30+c.Intn("lead", 40)) * time.Millisecond)
 	// heads up to the target, one by one
 	for s := base + 1; s <= target; s++ {
-		best.SetMasterHead(pool.VerifHead(s))
+		if err := publish(best, "the best connection conn0", s); err != nil {
+			return err
+		}
 		if withOther { // the other server announces the same block right behind the best one
-			other.SetMasterHead(pool.VerifHead(s))
+			if err := publish(other, "conn1", s); err != nil {
+				return err
+			}
 		}
 		if !runLate {
 			gap()
 		}
 	}
-	if runLate {
-		go p.Run(ctx)
-	}
+	startRun()
 	published := time.Since(start)
-	done := make(chan struct{})
-	go func() { wg.Wait(); close(done) }()
-	select {
-	case <-done:
-	case <-time.After(20 * time.Second):
-		return fmt.Errorf("callers did not return within 20 s (pool of one connection, %d early waiters, %d callers with a reached target, %d quitters)", nWaiters, nFast, nQuit)
+	// the waiters are served at once, the callers with a reached target never waited, the quitters have
+	// timeouts of at most 20 ms: 20 s is long after every deadline that is still open
+	if h := awaitGroup(&wg, 20*time.Second); h != nil {
+		c.Class("pool blocked")
+		return fmt.Errorf("the pool is blocked: %d waiters for head %d (published at %v), %d callers whose target was reached when they called and %d callers with timeouts <= 20 ms are not all back %s\ngoroutines inside the pool package:\n%s", nWaiters, target, published, nFast, nQuit, h, h.dump.text)
 	}
 	close(out)
+	if rescued {
+		c.Class("inconclusive: Run had to be started early (the head channel did not take the heads)")
+		return nil
+	}
 	c.NonTrivial(usedBefore, nWaiters, nFast, nQuit, order)
 	c.Class(fmt.Sprintf("pool used before: %v", usedBefore > 0))
 	for r := range out {
@@ -151,6 +181,12 @@ var earlyWaiters = &core.Check{Name: "c13/early-waiters", Quick: 60, Thorough: 6
 				return fmt.Errorf("a caller waiting for an unreachable seqno returned success")
 			}
 		}
+	}
+	// nobody is left holding the pool: a fresh waiter gets a fresh head
+	if ok, why := sentinelDelivered(p, best, sentinel, 20*time.Second); !ok {
+		c.Class("pool blocked")
+		_, d := verifiablyStuck(func() int64 { return 0 })
+		return fmt.Errorf("after the case the pool does not deliver a fresh head to a fresh waiter within 20 s: %s\ngoroutines inside the pool package:\n%s", why, d.text)
 	}
 	return nil
 }}
